@@ -165,6 +165,7 @@ int16_t COLssSwitchStateSelective_Product(CO_LSS *lss, CO_IF_FRM *frm)
         lss->Step = CO_LSS_SEL_VENDOR;
         return -1;
     }
+    lss->Step = CO_LSS_SEL_VENDOR;
 
     select = CO_GET_LONG(frm, 1);
     err    = CODictRdLong(&lss->Node->Dict, CO_DEV(0x1018, 2), &ident);
@@ -185,6 +186,7 @@ int16_t COLssSwitchStateSelective_Revision(CO_LSS *lss, CO_IF_FRM *frm)
         lss->Step = CO_LSS_SEL_VENDOR;
         return -1;
     }
+    lss->Step = CO_LSS_SEL_VENDOR;
 
     select = CO_GET_LONG(frm, 1);
     err    = CODictRdLong(&lss->Node->Dict, CO_DEV(0x1018, 3), &ident);
@@ -206,6 +208,7 @@ int16_t COLssSwitchStateSelective_Serial(CO_LSS *lss, CO_IF_FRM *frm)
         lss->Step = CO_LSS_SEL_VENDOR;
         return -1;
     }
+    lss->Step = CO_LSS_SEL_VENDOR;
 
     select = CO_GET_LONG(frm, 1);
     err    = CODictRdLong(&lss->Node->Dict, CO_DEV(0x1018, 4), &ident);
@@ -251,7 +254,7 @@ int16_t COLssActivateBitTiming(CO_LSS *lss, CO_IF_FRM *frm)
     COIfCanClose(&lss->Node->If);
     tmr       = &lss->Node->Tmr;
     ticks     = COTmrGetTicks(tmr, delay, CO_TMR_UNIT_1MS);
-    lss->Step = 1;
+    lss->ActStep = 1;
     lss->Tmr  = COTmrCreate(tmr,
                 0,
                 ticks,
@@ -379,12 +382,12 @@ int16_t COLssIdentifyRemoteSlave_Vendor(CO_LSS *lss, CO_IF_FRM *frm)
     uint32_t ident;
     CO_ERR   err;
 
-    lss->Step = CO_LSS_REM_VENDOR;
+    lss->RemStep = CO_LSS_REM_VENDOR;
 
     select    = CO_GET_LONG(frm, 1);
     err       = CODictRdLong(&lss->Node->Dict, CO_DEV(0x1018, 1), &ident);
     if ((err == CO_ERR_NONE) && (select == ident)) {
-        lss->Step = CO_LSS_REM_PRODUCT;
+        lss->RemStep = CO_LSS_REM_PRODUCT;
     }
 
     return -1;
@@ -396,15 +399,16 @@ int16_t COLssIdentifyRemoteSlave_Product(CO_LSS *lss, CO_IF_FRM *frm)
     uint32_t ident;
     CO_ERR   err;
 
-    if (lss->Step != CO_LSS_REM_PRODUCT) {
-        lss->Step = CO_LSS_REM_VENDOR;
+    if (lss->RemStep != CO_LSS_REM_PRODUCT) {
+        lss->RemStep = CO_LSS_REM_VENDOR;
         return -1;
     }
+    lss->RemStep = CO_LSS_REM_VENDOR;
 
     select = CO_GET_LONG(frm, 1);
     err = CODictRdLong(&lss->Node->Dict, CO_DEV(0x1018, 2), &ident);
     if ((err == CO_ERR_NONE) && (select == ident)) {
-        lss->Step = CO_LSS_REM_REVISION_MIN;
+        lss->RemStep = CO_LSS_REM_REVISION_MIN;
     }
     return -1;
 }
@@ -415,15 +419,16 @@ int16_t COLssIdentifyRemoteSlave_RevMin(CO_LSS *lss, CO_IF_FRM *frm)
     uint32_t ident;
     CO_ERR   err;
 
-    if (lss->Step != CO_LSS_REM_REVISION_MIN) {
-        lss->Step = CO_LSS_REM_VENDOR;
+    if (lss->RemStep != CO_LSS_REM_REVISION_MIN) {
+        lss->RemStep = CO_LSS_REM_VENDOR;
         return -1;
     }
+    lss->RemStep = CO_LSS_REM_VENDOR;
 
     select = CO_GET_LONG(frm, 1);
     err    = CODictRdLong(&lss->Node->Dict, CO_DEV(0x1018, 3), &ident);
     if ((err == CO_ERR_NONE) && (select <= ident)) {
-        lss->Step = CO_LSS_REM_REVISION_MAX;
+        lss->RemStep = CO_LSS_REM_REVISION_MAX;
     }
     return -1;
 }
@@ -434,15 +439,16 @@ int16_t COLssIdentifyRemoteSlave_RevMax(CO_LSS *lss, CO_IF_FRM *frm)
     uint32_t ident;
     CO_ERR   err;
 
-    if (lss->Step != CO_LSS_REM_REVISION_MAX) {
-        lss->Step = CO_LSS_REM_VENDOR;
+    if (lss->RemStep != CO_LSS_REM_REVISION_MAX) {
+        lss->RemStep = CO_LSS_REM_VENDOR;
         return -1;
     }
+    lss->RemStep = CO_LSS_REM_VENDOR;
 
     select = CO_GET_LONG(frm, 1);
     err    = CODictRdLong(&lss->Node->Dict, CO_DEV(0x1018, 3), &ident);
     if ((err == CO_ERR_NONE) && (select >= ident)) {
-        lss->Step = CO_LSS_REM_SERIAL_MIN;
+        lss->RemStep = CO_LSS_REM_SERIAL_MIN;
     }
     return -1;
 }
@@ -453,15 +459,16 @@ int16_t COLssIdentifyRemoteSlave_SerMin(CO_LSS *lss, CO_IF_FRM *frm)
     uint32_t ident;
     CO_ERR   err;
 
-    if (lss->Step != CO_LSS_REM_SERIAL_MIN) {
-        lss->Step = CO_LSS_REM_VENDOR;
+    if (lss->RemStep != CO_LSS_REM_SERIAL_MIN) {
+        lss->RemStep = CO_LSS_REM_VENDOR;
         return -1;
     }
+    lss->RemStep = CO_LSS_REM_VENDOR;
 
     select = CO_GET_LONG(frm, 1);
     err    = CODictRdLong(&lss->Node->Dict, CO_DEV(0x1018, 4), &ident);
     if ((err == CO_ERR_NONE) && (select <= ident)) {
-        lss->Step = CO_LSS_REM_SERIAL_MAX;
+        lss->RemStep = CO_LSS_REM_SERIAL_MAX;
     }
     return -1;
 }
@@ -473,10 +480,11 @@ int16_t COLssIdentifyRemoteSlave_SerMax(CO_LSS *lss, CO_IF_FRM *frm)
     CO_ERR   err;
     int16_t  result = -1;
 
-    if (lss->Step != CO_LSS_REM_SERIAL_MAX) {
-        lss->Step = CO_LSS_REM_VENDOR;
+    if (lss->RemStep != CO_LSS_REM_SERIAL_MAX) {
+        lss->RemStep = CO_LSS_REM_VENDOR;
         return -1;
     }
+    lss->RemStep = CO_LSS_REM_VENDOR;
 
     select = CO_GET_LONG(frm, 1);
     err    = CODictRdLong(&lss->Node->Dict, CO_DEV(0x1018, 4), &ident);
